@@ -11,10 +11,17 @@ import vlib, shellgen, printlib
 LEVEL = "model_checking"
 
 
+def focus(R):
+    """printer focus of the grammar (start symbol prprog): every combination of list terminators in compound commands"""
+    cfg = "INIT Init\nNEXT Next\nINVARIANT EmitCase\nCONSTANTS MaxDev = 1\n MaxDepth = 3\n StartSym = \"prprog\"\n"
+    res = R.tlc("ShellGen", cfg, name="ShellGen-prprog", timeout=3000)
+    return shellgen._cases(res)
+
+
 def programs(R):
     if R.tier == "quick":
-        return shellgen.dedup(shellgen.bfs(R, 2) + shellgen.simulate(R, 60))
-    return shellgen.dedup(shellgen.bfs(R, 2) + shellgen.simulate(R, 800))
+        return shellgen.dedup(shellgen.bfs(R, 2) + focus(R) + shellgen.simulate(R, 60))
+    return shellgen.dedup(shellgen.bfs(R, 2) + focus(R) + shellgen.simulate(R, 800))
 
 
 def report(R, obs, bad, which):
